@@ -4,24 +4,24 @@ import json, os
 V = os.path.dirname(os.path.dirname(os.path.abspath(__file__)))
 props = [json.loads(l) for l in open(os.path.join(V, "properties.jsonl"))]
 
-A_NOTE = "Inputs come from the structured finite alphabets of DESIGN.md section 3 (keys, nonce seeds, message lengths/classes, footers, assertions), not from {0,1}^256 or UTF-8*; cryptographic strength is not claimed. Hooks: RNG tap + frozen clock under --cfg rusty_paseto_verif; each affected check also runs a free-running pass."
-B_NOTE = "The reference model only drives the search: every transition replays the call history on the real object (frozen clock H2, scripted RNG H1, re-installed on every replay) and the verdict of that replay is what the `always` properties read. States are merged on the model state; that merge is cross-checked by the unmerged engine-A enumeration of call sequences through the same judge. stateright 0.31's BFS and fingerprinting are trusted."
+A_NOTE = "Inputs come from the structured finite alphabets of DESIGN.md section 3 (keys, nonce seeds, message lengths/classes, footers, assertions), not from {0,1}^256 or UTF-8*; cryptographic strength is not claimed. Hooks: RNG tap + frozen clock under --cfg rusty_paseto_verif; each affected check also runs a free-running pass. Every enumeration runs to completion twice, against two builds of harness + /repo working tree: profile release (no overflow checks, no debug assertions) and profile checked (both on); a violation under either is the verdict and the evidence file holds both runs (coverage.profiles)."
+B_NOTE = "The reference model only drives the search: every transition replays the call history on the real object (frozen clock H2, scripted RNG H1, re-installed on every replay) and the verdict of that replay is what the `always` properties read. States are merged on the model state; that merge is cross-checked by the unmerged engine-A enumeration of call sequences through the same judge. stateright 0.31's BFS and fingerprinting are trusted. Every enumeration runs to completion twice, against two builds of harness + /repo working tree: profile release (no overflow checks, no debug assertions) and profile checked (both on); a violation under either is the verdict and the evidence file holds both runs (coverage.profiles)."
 CHECKS = {
  "C01": dict(engine="A-choice-tree", design_ref="5/C01",
    technique="stateless exhaustive enumeration of a choice tree (deviation bounds 0,1,2 then full cartesian product), one execution of the real crate per path, identity oracle",
-   text="Every path of the (protocol x layer x key x nonce seed x message length x content class x footer x assertion) choice tree is executed on the real crate at all three API layers and must return the original message. quick: all paths with <=2 deviations from the default plus the full product over a reduced alphabet; thorough: the full product (about 830k executions) plus every length 0..=300. Also object-reuse histories: one builder building several tokens while reconfigured, one parser re-keyed / reconfigured between parses, the core builder used twice and with its setters in other orders - every authentic presentation must still return the message. Quick includes messages of 1 025, 4 097 and 65 537 bytes.",
+   text="Every path of the (protocol x layer x key x nonce seed x message length x content class x footer x assertion) choice tree is executed on the real crate at all three API layers and must return the original message. quick: all paths with <=2 deviations from the default plus the full product over a reduced alphabet; thorough: the full product (about 830k executions) plus every length 0..=300. Also object-reuse histories: one builder building several tokens while reconfigured, one parser re-keyed / reconfigured between parses, the core builder used twice and with its setters in other orders - every authentic presentation must still return the message. Quick includes messages of 1 025, 4 097 and 65 537 bytes. Footers / assertions include a 9 000-byte one and ones containing U+FFFD; the core builder is also used through clone() of a configured builder.",
    note=A_NOTE),
  "C02": dict(engine="A-choice-tree", design_ref="5/C02",
    technique="stateless exhaustive enumeration of a choice tree (deviation bounds 0,1,2 then full cartesian product), one sign+verify on the real crate per path, identity oracle",
-   text="Same explorer as C01 over the asymmetric key pools (8 Ed25519 pairs and 6 P-384 pairs whose public halves come from the independent Python reference, 3 RSA-2048 pairs): every path signs and verifies at all three layers and must return the original message. Object-reuse histories as in C01 (second build from one builder, reconfigured parser, core builder call orders).",
+   text="Same explorer as C01 over the asymmetric key pools (8 Ed25519 pairs and 6 P-384 pairs whose public halves come from the independent Python reference, 3 RSA-2048 pairs): every path signs and verifies at all three layers and must return the original message. Object-reuse histories as in C01 (second build from one builder, reconfigured parser, core builder call orders). 9 000-byte and U+FFFD footers / assertions and the clone() of a configured core builder as in C01.",
    note=A_NOTE),
  "C03": dict(engine="A-choice-tree", design_ref="5/C03",
    technique="exhaustive enumeration of explicitly listed mutation neighbourhoods of authentic tokens (all single-bit flips, all single-character substitutions/insertions/deletions, all prefixes, suffix extensions, boundary shifts, splices, non-canonical base64, signature re-encodings; thorough: all bit-flip pairs), each presented to the real entry points; acceptance-predicate oracle",
-   text="For every base token (protocol x key x message x footer x assertion) every element of nine (thorough: ten) mutation families is presented to the core, generic and batteries-included entry points. Oracle R2: only the issued text, an added/removed empty trailing segment or a signature-only re-encoding may be accepted, and then the original content must come back; every other mutant must be an Err of the authentication/format class (never UTF-8/JSON/claim) with zero validator calls. The text-edit families use a 70-symbol alphabet (base64url, '.', '=', blank, LF, CR, TAB) plus transport decorations (Bearer prefix, BOM, quotes, trailing separators).",
+   text="For every base token (protocol x key x message x footer x assertion) every element of nine (thorough: ten) mutation families is presented to the core, generic and batteries-included entry points. Oracle R2: only the issued text, an added/removed empty trailing segment or a signature-only re-encoding may be accepted, and then the original content must come back; every other mutant must be an Err of the authentication/format class (never UTF-8/JSON/claim) with zero validator calls. The text-edit families use a 70-symbol alphabet (base64url, '.', '=', blank, LF, CR, TAB) plus transport decorations (Bearer prefix, BOM, quotes, trailing separators). The footer segment is also replaced by the base64url form of ill-formed UTF-8 under an expected footer containing U+FFFD.",
    note=A_NOTE),
  "C04": dict(engine="A-choice-tree", design_ref="5/C04",
    technique="exhaustive enumeration of ordered key pairs and of all single-bit neighbours of the accepting key, each run on the real crate; acceptance-predicate oracle with positive control",
-   text="All ordered pairs of pool keys x message x footer/assertion at every layer, all single-bit neighbours of the accepting key (local: both directions), P-384 other-parity point: presenting under K' != K must fail, under K must succeed. One parser object parsing the same token under the right and a wrong key in both orders; for v3.public every other key that public-key recovery yields from the token's own signature (computed by the independent reference).",
+   text="All ordered pairs of pool keys x message x footer/assertion at every layer, all single-bit neighbours of the accepting key (local: both directions), P-384 other-parity point: presenting under K' != K must fail, under K must succeed. One parser object parsing the same token under the right and a wrong key in both orders; for v3.public every other key that public-key recovery yields from the token's own signature (computed by the independent reference). Ed25519 secret keys whose two halves do not belong together: either no token is produced, or the token verifies under the public key the key object carries and under no other.",
    note=A_NOTE),
  "C05": dict(engine="A-choice-tree", design_ref="5/C05",
    technique="exhaustive enumeration of all ordered (built footer, expected footer) pairs and of all single-character edits / removal / replacement / addition of the footer segment, on the real crate; iff-oracle",
@@ -29,7 +29,7 @@ CHECKS = {
    note=A_NOTE),
  "C06": dict(engine="A-choice-tree", design_ref="5/C06",
    technique="exhaustive enumeration of all ordered (built assertion, supplied assertion) pairs and of (footer, assertion) splits of one concatenation, on the real crate; iff-oracle plus non-storage observations",
-   text="v3/v4 x purpose x layer: accept iff the supplied assertion equals the built one over all ordered pairs of a 9-element domain and the split pairs; token length is independent of the assertion and its bytes (raw or base64) never occur in the token. One builder / parser reconfigured between uses (A1 -> A2 -> empty), second build from the same builder, core builder call orders.",
+   text="v3/v4 x purpose x layer: accept iff the supplied assertion equals the built one over all ordered pairs of a 9-element domain and the split pairs; token length is independent of the assertion and its bytes (raw or base64) never occur in the token. One builder / parser reconfigured between uses (A1 -> A2 -> empty), second build from the same builder, core builder call orders. A token built from clone() of a configured core builder must be bound to the same assertion.",
    note=A_NOTE),
  "C07": dict(engine="A-choice-tree", design_ref="5/C07",
    technique="full enumeration of the 56 ordered protocol pairs x {verbatim, header rewritten} x shared key material x layer, on the real crate",
@@ -37,12 +37,12 @@ CHECKS = {
    note=A_NOTE),
  "C08": dict(engine="A-choice-tree", design_ref="5/C08",
    technique="exhaustive enumeration of the core-layer input space (deviation bound 2 + full product) with every case compared, in both directions, against an independent executable transcription of the PASETO specification pinned to all official vectors",
-   text="Every enumerated (protocol, key, nonce seed, message, footer, assertion) is run through the library and through R1 (pure-Python Version1-4.md + Common.md): local tokens must be byte-identical and decrypt under R1; library-signed public tokens must verify under R1 and have exactly the specification's textual shape (footer segment iff non-empty footer); R1-made tokens (incl. RFC 8032 / RFC 6979 / PSS signatures) must be accepted by the library with the original message. Tokens made by GenericBuilder / PasetoBuilder (scripted nonce) and by a re-used / differently ordered core builder are compared for the payload they carry. Quick includes 1 025, 4 097 and 65 537 byte messages.",
+   text="Every enumerated (protocol, key, nonce seed, message, footer, assertion) is run through the library and through R1 (pure-Python Version1-4.md + Common.md): local tokens must be byte-identical and decrypt under R1; library-signed public tokens must verify under R1 and have exactly the specification's textual shape (footer segment iff non-empty footer); R1-made tokens (incl. RFC 8032 / RFC 6979 / PSS signatures) must be accepted by the library with the original message. Tokens made by GenericBuilder / PasetoBuilder (scripted nonce) and by a re-used / differently ordered core builder are compared for the payload they carry. Quick includes 1 025, 4 097 and 65 537 byte messages. For v1.local / v3.local, (key, nonce) pairs whose derived AES-CTR IV is within a few blocks of a 32- or 64-bit counter wrap (searched with the reference, re-derived before use) with messages crossing the wrap.",
    note="R1 is the trusted oracle: it shares no code with the crate or its dependencies (hashlib + own AES/ChaCha/Poly1305/Ed25519/P-384/RSA-PSS), and its self-test recomputes all 53 official vectors before every run. " + A_NOTE),
  "C09": dict(engine="A-choice-tree", design_ref="5/C09",
    technique="exhaustive enumeration of structured hostile inputs (every decoded length 0..=400 behind each header, every token prefix, all strings of 0..6 segments over a 7-element alphabet, 1 MiB strings, hostile payloads, every hex length 0..=200) on all 24 entry points under catch_unwind with overflow checks",
-   text="All 24 decrypt/verify/parse entry points plus Key::<N>::try_from(&str) are called on every element of the listed input families; any panic (located by file:line) is a violation, as is a wrong-length hex key reported as success. Further families: a 2/3/4-byte character at every position of an authentic token, time claims at the ends of the year range, hex keys padded with white space to every length around 2N; built with debug assertions.",
-   note="A panic is observed through catch_unwind with overflow-checks on; an abort (allocation failure, stack overflow) would kill the explorer and surface as a machinery error."),
+   text="All 24 decrypt/verify/parse entry points plus Key::<N>::try_from(&str) are called on every element of the listed input families; any panic (located by file:line) is a violation, as is a wrong-length hex key reported as success. Further families: a 2/3/4-byte character at every position of an authentic token, time claims at the ends of the year range, hex keys padded with white space to every length around 2N; authentic tokens whose payload nests arrays / objects / both 200, 3 000 and 100 000 deep, parsed at both JSON-aware layers in a child process (a child that dies is a violation).",
+   note="A panic is observed through catch_unwind (profiles release and checked, the latter with overflow checks and debug assertions); stack exhaustion by nested JSON is observed as the death of a child process; an allocation failure would kill the explorer and surface as a machinery error."),
  "C10": dict(engine="A-choice-tree", design_ref="5/C10",
    technique="exhaustive enumeration of builder call histories (depth 5 quick / 6 thorough) under a scripted RNG (hook H1) with a differential oracle against the core layer; plus a free-running pass that evaluates the statement's distinctness predicate on N real builds",
    text="For v1..v4 local and both builder layers, every call history over {new builder, set same/other claims, set footer, build} and every pair of draws differing in one bit: each build consumes exactly one fresh RNG draw of the right length, the token equals the core-layer token for that draw (so, with C08, the wire nonce is the specification's function of a fresh draw) and distinct draws give distinct nonces and tokens. Free-running: N builds with identical claims under one key carry pairwise distinct nonces/tokens, no constant nonce byte. The per-bit frequency clause is computed but is sampling and auxiliary; unpredictability of the OS RNG is not decidable by this family. Further passes: six threads building concurrently under one key, and the first nonces of two further process lifetimes must not recur.",
@@ -57,23 +57,23 @@ CHECKS = {
    note="R4 (own integer-arithmetic RFC 3339 reader) is the oracle. " + A_NOTE),
  "C13": dict(engine="B-stateright", design_ref="5/C13",
    technique="explicit-state BFS (stateright) to closure over a reference model of PasetoBuilder with every transition replayed on the real builder under a frozen clock; plus unmerged exhaustive enumeration of call sequences to depth 4 (quick) / 5 (thorough)",
-   text="All reachable states of the builder model (per key supplied 0/1/2+ times and last value, acknowledged, footer/assertion, builds 0/1/2+) under actions {set_claim(k,v), acknowledgement, set_footer(+assertion), build}; after every build of every replayed history the payload (read back at the core layer) must carry exp unless acknowledged, never carry it if acknowledged, default exp = iat + 1 h exactly and default iat = nbf = the frozen creation instant - on the first, second and later builds. Plus a hooks-idle pass under the real clock (iat bracketed between two clock reads, nbf = iat, exp = iat + 1 h), every frozen clock in quick, and an application-defined claim type serialising as a one-member object named exp.",
+   text="All reachable states of the builder model (per key supplied 0/1/2+ times and last value, acknowledged, footer/assertion, builds 0/1/2+) under actions {set_claim(k,v), acknowledgement, set_footer(+assertion), build}; after every build of every replayed history the payload (read back at the core layer) must carry exp unless acknowledged, never carry it if acknowledged, default exp = iat + 1 h exactly and default iat = nbf = the frozen creation instant - on the first, second and later builds. Plus a hooks-idle pass under the real clock (iat bracketed between two clock reads, nbf = iat, exp = iat + 1 h), every frozen clock in quick, and an application-defined claim type serialising as a one-member object named exp. A build that fails in the crypto step (unusable key) followed by a build with the good key on the same builder is judged as if the failed call had not happened.",
    note=B_NOTE),
  "C14": dict(engine="B-stateright", design_ref="5/C14",
    technique="explicit-state BFS (stateright) to closure over a key->value map model of GenericBuilder, every transition replayed on the real builder, built and parsed back; plus unmerged sequence enumeration",
-   text="Reachable states of the claim-map model over custom keys (quotes/newline, non-BMP, Cyrillic, blank) x a 15-element JSON value alphabet (Unicode string, empty, integers incl. u64::MAX, 1.5, bool, null, arrays, depth-5 object, native struct / Option / map) x 3 constructor forms, remove_claim and the 7 typed registered claims: the object returned by a validator-free parser must equal the model map (same key set, JSON-equal values, last write wins, removed claims absent). v4.local full alphabet; other protocols reduced alphabet. A build follows every call of the replayed history (state left by an earlier build must not leak); the alphabet has 21 values incl. native f32, empty containers, an object named like its key and an application-defined claim type; keys incl. white-space-only and a 90-byte namespaced one.",
+   text="Reachable states of the claim-map model over custom keys (quotes/newline, non-BMP, Cyrillic, blank) x a 15-element JSON value alphabet (Unicode string, empty, integers incl. u64::MAX, 1.5, bool, null, arrays, depth-5 object, native struct / Option / map) x 3 constructor forms, remove_claim and the 7 typed registered claims: the object returned by a validator-free parser must equal the model map (same key set, JSON-equal values, last write wins, removed claims absent). v4.local full alphabet; other protocols reduced alphabet. A build follows every call of the replayed history (state left by an earlier build must not leak); the alphabet has 21 values incl. native f32, empty containers, an object named like its key and an application-defined claim type; keys incl. white-space-only and a 90-byte namespaced one. Histories are also run after a poisoning pre-step on the same thread (a claim whose Serialize fails after writing a prefix, one that panics inside serialize).",
    note=B_NOTE),
  "C15": dict(engine="B-stateright", design_ref="5/C15",
    technique="explicit-state BFS (stateright) to closure over the parser-configuration model, every transition replayed on the real parser against a pool of tokens; plus exhaustive enumeration of the (token claim set, expected set) product and of unmerged configuration sequences",
-   text="Reachable configurations (per key: expectation none/v1/v2, validator none/accept/reject/value-dependent, built-in default validator; routes check_claim, validate_claim, extend_check_claims, extend_validation_claims) for GenericParser, PasetoParser::new() and PasetoParser::default(); with each configuration every pool token (all {absent,v1,v2} combinations, null, unauthentic ones) is parsed by one parser: Ok iff every expected claim is present, non-null and JSON-equal; missing -> missing-claim error; never Ok otherwise; first token re-parsed last must give the same outcome. Plus the full (S,E) product: 4 keys x {absent,v1,v2,null} x {not expected, v1, v2, other JSON type, changed case}. Probe tokens are parsed after every intermediate configuration step; pool includes non-object payloads and expired / not-yet-valid tokens; null expectations, containment probes, number spellings, registrations before / after set_footer.",
+   text="Reachable configurations (per key: expectation none/v1/v2, validator none/accept/reject/value-dependent, built-in default validator; routes check_claim, validate_claim, extend_check_claims, extend_validation_claims) for GenericParser, PasetoParser::new() and PasetoParser::default(); with each configuration every pool token (all {absent,v1,v2} combinations, null, unauthentic ones) is parsed by one parser: Ok iff every expected claim is present, non-null and JSON-equal; missing -> missing-claim error; never Ok otherwise; first token re-parsed last must give the same outcome. Plus the full (S,E) product: 4 keys x {absent,v1,v2,null} x {not expected, v1, v2, other JSON type, changed case}. Probe tokens are parsed after every intermediate configuration step; pool includes non-object payloads and expired / not-yet-valid tokens; null expectations, containment probes, number spellings, registrations before / after set_footer. Expectations without a serde_json form (u128::MAX) must never make another value acceptable; JSON-pointer-like keys (a/b, a~1b) against tokens that lack the member but have the nested path.",
    note=B_NOTE),
  "C16": dict(engine="B-stateright", design_ref="5/C16",
    technique="explicit-state BFS (stateright) to closure over the parser-configuration model with logging validators, every transition replayed on the real parser against a pool of authentic and unauthentic tokens",
-   text="Same model as C15 read for the validator clauses: on unauthentic tokens (bit flipped in tag and in content, wrong key, header, footer, assertion) the call log is empty and the error is not a claim error; on authentic tokens every logged call carries the registered key and exactly the payload's value (null when absent), no validator runs twice, Ok iff every registered validator accepts - and then each ran exactly once - else a claim error. One logging validator per (key, kind) makes re-registration observable; non-object payloads; registrations before / after set_footer and set_implicit_assertion.",
+   text="Same model as C15 read for the validator clauses: on unauthentic tokens (bit flipped in tag and in content, wrong key, header, footer, assertion) the call log is empty and the error is not a claim error; on authentic tokens every logged call carries the registered key and exactly the payload's value (null when absent), no validator runs twice, Ok iff every registered validator accepts - and then each ran exactly once - else a claim error. One logging validator per (key, kind) makes re-registration observable; non-object payloads; registrations before / after set_footer and set_implicit_assertion. JSON-pointer-like keys (a/b, a~1b): a validator for a member the token lacks must see null even if the nested path exists.",
    note=B_NOTE + " The built-in default validators cannot be logged and are modelled by their documented behaviour."),
  "C17": dict(engine="B-stateright", design_ref="5/C17",
    technique="explicit-state BFS (stateright) to closure over the PasetoBuilder reference model (same model as C13) with every transition replayed on the real builder; plus unmerged exhaustive enumeration of call sequences to depth 4 / 5",
-   text="After any history in which a key was supplied twice every build returns the duplicate-claim error naming a repeated key and no token - on that and every later build (covered to closure, i.e. duplicates arbitrarily far apart and any number of later builds within the capped model); without a repeat every build succeeds and the payload equals the defaults overridden by the supplied values (minus exp if acknowledged); exp after acknowledgement may be refused or ignored. Model keys include the case pair a / A and the empty key; all ordered pairs of nine near-miss keys (case, white space, NFC/NFD) must be treated as distinct.",
+   text="After any history in which a key was supplied twice every build returns the duplicate-claim error naming a repeated key and no token - on that and every later build (covered to closure, i.e. duplicates arbitrarily far apart and any number of later builds within the capped model); without a repeat every build succeeds and the payload equals the defaults overridden by the supplied values (minus exp if acknowledged); exp after acknowledgement may be refused or ignored. Model keys include the case pair a / A and the empty key; all ordered pairs of nine near-miss keys (case, white space, NFC/NFD) must be treated as distinct. Failed-build-then-build histories as in C13.",
    note=B_NOTE),
  "C18": dict(engine="A-choice-tree", design_ref="5/C18",
    technique="exhaustive enumeration of all keys of length 0..=4 over an 8-symbol alphabet plus decorated variants of the registered keys x constructor form x value type, and of the strict RFC 3339 rendering grid for the three time-claim constructors, on the real constructors",
@@ -81,11 +81,11 @@ CHECKS = {
    note="R4 decides strictness; strings that merely start with a date are unconstrained. " + A_NOTE),
  "C19": dict(engine="C-lattice", design_ref="5/C19",
    technique="exhaustive enumeration of a finite grid of generated client programs (one type substitution each, from a compiling base), type-checked against the working tree by one cargo check --keep-going; compile-table reference model",
-   text="504 generated programs: 6 operations x 8 token protocols x 8 key protocols, nonce version x token version, purpose misuse (encrypt/decrypt on public, sign/verify on local) at the core and generic-builder layers, set_implicit_assertion on 5 holder types x 8 protocols, symmetric key with public purpose, asymmetric keys from Key<N> for N in {32,48,49,64}. A program must compile iff the table says so; a must-not-compile program must fail with a type-system error code located on its substituted line (anything else is a machinery error, not a pass). Same grid in both tiers.",
+   text="538 generated programs: 6 operations x 8 token protocols x 8 key protocols, nonce version x token version, purpose misuse (encrypt/decrypt on public, sign/verify on local) at the core and generic-builder layers, set_implicit_assertion on 5 holder types x 8 protocols, symmetric key with public purpose, asymmetric keys from Key<N> for N in {32,48,49,64} and from fixed-size arrays / array references of right and wrong sizes. A program must compile iff the table says so; a must-not-compile program must fail with a type-system error code located on its substituted line (anything else is a machinery error, not a pass). Same grid in both tiers.",
    note="rustc 1.95 is the type-checking oracle; the grid is the quantifier's own enumeration (operation, token protocol, key protocol)."),
  "C20": dict(engine="C-lattice", design_ref="5/C20",
    technique="explicit-state enumeration of the feature-subset lattice; cargo build+run of a cfg-gated smoke client per state",
-   text="Every configuration of the stated space (quick: 8 singletons, 28 pairs, full set x 3 layers + default + none = 113; thorough: all 767) is built from /repo's working tree and its smoke client run; every enabled (protocol, layer) block must round-trip. Exhaustive over the configuration space the property quantifies over; monotonicity follows because the client source is identical in every configuration. The smoke client also inspects keys, nonces and footers through AsRef / Deref (idioms whose target type must be inferred).",
+   text="Every configuration of the stated space (quick: 8 singletons, 28 pairs, full set x 3 layers + default + none = 113; thorough: all 767) is built from /repo's working tree and its smoke client run; every enabled (protocol, layer) block must round-trip. Exhaustive over the configuration space the property quantifies over; monotonicity follows because the client source is identical in every configuration. The smoke client also inspects keys, nonces and footers through AsRef / Deref (idioms whose target type must be inferred). The 8 singletons, the full set and the crate default are additionally built and run with --release (a configuration must also compile and work without debug assertions).",
    note="rustc/cargo 1.95 and the locked dependency versions are the compile oracle; 'works' is one fixed round trip per protocol and layer (input-space depth is C01/C02's job)."),
 }
 
